@@ -15,15 +15,21 @@ EXTENDS Lexer
 Expr(left, aop, lop, op, right, minus, field, function, args, val) ==
   [left |-> left, arithmetic_op |-> aop, logical_op |-> lop, op |-> op, right |-> right, minus |-> minus,
    field |-> field, function |-> function, args |-> args, val |-> val]
+(* absent values: the string "None" for enum-valued options; for Expr-valued options and the argument list a record   *)
+(* of its own shape (TLC compares records of different shapes as unequal, but refuses to compare a record to a string) *)
 N == "None"
-EField(f, minus) == Expr(N, N, N, N, N, minus, f, N, N, N)
-EValue(v, minus) == Expr(N, N, N, N, N, minus, N, N, N, v)
-EOp(l, op, r) == Expr(l, N, N, op, r, FALSE, N, N, N, N)
-ELogical(l, lop, r) == Expr(l, N, lop, N, r, FALSE, N, N, N, N)
-EArith(l, aop, r) == Expr(l, aop, N, N, r, FALSE, N, N, N, N)
-EFunction(fn) == Expr(N, N, N, N, N, FALSE, N, fn, <<>>, N)
+NE == [none |-> TRUE]
+IsNone(e) == DOMAIN e = {"none"}
+NoArgs == [some |-> FALSE, list |-> <<>>]
+Args(l) == [some |-> TRUE, list |-> l]
+EField(f, minus) == Expr(NE, N, N, N, NE, minus, f, N, NoArgs, N)
+EValue(v, minus) == Expr(NE, N, N, N, NE, minus, N, N, NoArgs, v)
+EOp(l, op, r) == Expr(l, N, N, op, r, FALSE, N, N, NoArgs, N)
+ELogical(l, lop, r) == Expr(l, N, lop, N, r, FALSE, N, N, NoArgs, N)
+EArith(l, aop, r) == Expr(l, aop, N, N, r, FALSE, N, N, NoArgs, N)
+EFunction(fn) == Expr(NE, N, N, N, NE, FALSE, N, fn, Args(<<>>), N)
 Ok(e, i) == [ok |-> TRUE, e |-> e, i |-> i]
-Err(i) == [ok |-> FALSE, e |-> N, i |-> i]
+Err(i) == [ok |-> FALSE, e |-> NE, i |-> i]
 
 (* Field::from_str / Function::from_str restricted to the names the generators use: lower-case spelling -> variant name *)
 FieldOf(s) == LET t == Str(LowerSeq(s)) IN
@@ -52,7 +58,7 @@ ArithOf(s) == LET t == Str(LowerSeq(s)) IN
     [] t \in {"%", "mod"} -> "Modulo" [] OTHER -> N
 
 RECURSIVE NegateExpr(_)
-NegateExpr(e) == IF e = N THEN N
+NegateExpr(e) == IF IsNone(e) THEN e
                  ELSE [e EXCEPT !.left = NegateExpr(e.left), !.right = NegateExpr(e.right),
                                 !.op = IF e.op = N THEN N ELSE NegateOp(e.op),
                                 !.logical_op = IF e.logical_op = "And" THEN "Or" ELSE IF e.logical_op = "Or" THEN "And" ELSE N]
@@ -64,26 +70,26 @@ RECURSIVE PExpr(_, _), PAnd(_, _), PCond(_, _), PAddSub(_, _), PMulDiv(_, _), PP
           POrTail(_, _, _, _), PAndTail(_, _, _, _), PAddTail(_, _, _), PMulTail(_, _, _), PNots(_, _, _), PArgs(_, _, _, _, _)
 
 (* expr := and (OR and)*      the right operands are folded among themselves first: A or (B or C) *)
-PExpr(toks, i) == LET l == PAnd(toks, i) IN IF ~l.ok THEN l ELSE POrTail(toks, l.i, l.e, N)
+PExpr(toks, i) == LET l == PAnd(toks, i) IN IF ~l.ok THEN l ELSE POrTail(toks, l.i, l.e, NE)
 POrTail(toks, i, left, right) ==
   IF K(toks, i) = "or"
   THEN LET r == PAnd(toks, i + 1) IN
        IF ~r.ok THEN r
-       ELSE IF right = N THEN POrTail(toks, r.i, left, r.e)
-       ELSE IF r.e = N THEN Err(r.i)                                   \* expr.clone().unwrap() on None: a panic in the code
+       ELSE IF IsNone(right) THEN POrTail(toks, r.i, left, r.e)
+       ELSE IF IsNone(r.e) THEN Err(r.i)                              \* expr.clone().unwrap() on None: a panic in the code
        ELSE POrTail(toks, r.i, left, ELogical(right, "Or", r.e))
-  ELSE IF right = N THEN Ok(left, i)
-  ELSE IF left = N THEN Err(i) ELSE Ok(ELogical(left, "Or", right), i)
-PAnd(toks, i) == LET l == PCond(toks, i) IN IF ~l.ok THEN l ELSE PAndTail(toks, l.i, l.e, N)
+  ELSE IF IsNone(right) THEN Ok(left, i)
+  ELSE IF IsNone(left) THEN Err(i) ELSE Ok(ELogical(left, "Or", right), i)
+PAnd(toks, i) == LET l == PCond(toks, i) IN IF ~l.ok THEN l ELSE PAndTail(toks, l.i, l.e, NE)
 PAndTail(toks, i, left, right) ==
   IF K(toks, i) = "and"
   THEN LET r == PCond(toks, i + 1) IN
        IF ~r.ok THEN r
-       ELSE IF right = N THEN PAndTail(toks, r.i, left, r.e)
-       ELSE IF r.e = N THEN Err(r.i)
+       ELSE IF IsNone(right) THEN PAndTail(toks, r.i, left, r.e)
+       ELSE IF IsNone(r.e) THEN Err(r.i)
        ELSE PAndTail(toks, r.i, left, ELogical(right, "And", r.e))
-  ELSE IF right = N THEN Ok(left, i)
-  ELSE IF left = N THEN Err(i) ELSE Ok(ELogical(left, "And", right), i)
+  ELSE IF IsNone(right) THEN Ok(left, i)
+  ELSE IF IsNone(left) THEN Err(i) ELSE Ok(ELogical(left, "And", right), i)
 
 (* leading NOTs: [negate, i] *)
 PNots(toks, i, neg) == IF K(toks, i) = "not" THEN PNots(toks, i + 1, ~neg) ELSE [neg |-> neg, i |-> i]
@@ -100,39 +106,39 @@ PCond(toks, i0) ==
                      ELSE IF K(toks, a.i) # "and" THEN Err(a.i)
                      ELSE LET b == PAddSub(toks, a.i + 1) IN
                           IF ~b.ok THEN b
-                          ELSE IF l.e = N \/ a.e = N \/ b.e = N THEN Err(b.i)
+                          ELSE IF IsNone(l.e) \/ IsNone(a.e) \/ IsNone(b.e) THEN Err(b.i)
                           ELSE Ok(ELogical(EOp(l.e, IF infixNot THEN "Lt" ELSE "Gte", a.e), IF infixNot THEN "Or" ELSE "And",
                                            EOp(l.e, IF infixNot THEN "Gt" ELSE "Lte", b.e)), b.i)
                 ELSE IF K(toks, j) = "operator"
                 THEN LET r == PAddSub(toks, j + 1)
                          op0 == OpOf(S(toks, j))
                          op == IF op0 = N THEN N ELSE IF infixNot THEN NegateOp(op0) ELSE op0
-                     IN IF ~r.ok THEN r ELSE IF l.e = N \/ op = N \/ r.e = N THEN Err(r.i) ELSE Ok(EOp(l.e, op, r.e), r.i)
+                     IN IF ~r.ok THEN r ELSE IF IsNone(l.e) \/ op = N \/ IsNone(r.e) THEN Err(r.i) ELSE Ok(EOp(l.e, op, r.e), r.i)
                 ELSE Ok(l.e, j)                 \* (an infix NOT without an operator stays consumed, as in the code)
           IN IF ~res.ok THEN res
              ELSE LET e == res.e
-                      short == IF e # N /\ e.field # N /\ e.left = N /\ e.right = N /\ e.field \in BooleanFields
+                      short == IF ~IsNone(e) /\ e.field # N /\ IsNone(e.left) /\ IsNone(e.right) /\ e.field \in BooleanFields
                                THEN EOp(EField(e.field, FALSE), "Eq", EValue("true", FALSE))
-                               ELSE IF e # N /\ e.field = N /\ e.function # N /\ e.right = N /\ (e.args = N \/ e.args = <<>>) /\ e.function \in BooleanFunctions
+                               ELSE IF ~IsNone(e) /\ e.field = N /\ e.function # N /\ IsNone(e.right) /\ e.args.list = <<>> /\ e.function \in BooleanFunctions
                                THEN EOp([EFunction(e.function) EXCEPT !.left = e.left], "Eq", EValue("true", FALSE))
                                ELSE e
-                  IN Ok(IF pn.neg /\ short # N THEN NegateExpr(short) ELSE short, res.i)
+                  IN Ok(IF pn.neg /\ ~IsNone(short) THEN NegateExpr(short) ELSE short, res.i)
 
 PAddSub(toks, i) == LET l == PMulDiv(toks, i) IN IF ~l.ok THEN l ELSE PAddTail(toks, l.i, l.e)
 PAddTail(toks, i, left) ==
   IF K(toks, i) = "arith" /\ ArithOf(S(toks, i)) \in {"Add", "Subtract"}
   THEN LET r == PMulDiv(toks, i + 1) IN
        IF ~r.ok THEN r
-       ELSE IF left = N THEN PAddTail(toks, r.i, r.e)
-       ELSE IF r.e = N THEN Err(r.i) ELSE PAddTail(toks, r.i, EArith(left, ArithOf(S(toks, i)), r.e))
+       ELSE IF IsNone(left) THEN PAddTail(toks, r.i, r.e)
+       ELSE IF IsNone(r.e) THEN Err(r.i) ELSE PAddTail(toks, r.i, EArith(left, ArithOf(S(toks, i)), r.e))
   ELSE Ok(left, i)
 PMulDiv(toks, i) == LET l == PParen(toks, i) IN IF ~l.ok THEN l ELSE PMulTail(toks, l.i, l.e)
 PMulTail(toks, i, left) ==
   IF K(toks, i) = "arith" /\ ArithOf(S(toks, i)) \in {"Multiply", "Divide", "Modulo"}
   THEN LET r == PParen(toks, i + 1) IN
        IF ~r.ok THEN r
-       ELSE IF left = N THEN PMulTail(toks, r.i, r.e)
-       ELSE IF r.e = N THEN Err(r.i) ELSE PMulTail(toks, r.i, EArith(left, ArithOf(S(toks, i)), r.e))
+       ELSE IF IsNone(left) THEN PMulTail(toks, r.i, r.e)
+       ELSE IF IsNone(r.e) THEN Err(r.i) ELSE PMulTail(toks, r.i, EArith(left, ArithOf(S(toks, i)), r.e))
   ELSE Ok(left, i)
 
 PParen(toks, i) ==
@@ -148,7 +154,7 @@ PFuncScalar(toks, i0) ==
       plus == isArith /\ S(toks, i0) = <<"+">>
       i == IF minus \/ plus THEN i0 + 1 ELSE i0          \* any other arithmetic token is looked at again and fails below
   IN IF minus /\ K(toks, i) \in {"open", "curlyopen"}
-     THEN LET r == PParen(toks, i) IN IF ~r.ok \/ r.e = N THEN r ELSE Ok([r.e EXCEPT !.minus = ~@], r.i)
+     THEN LET r == PParen(toks, i) IN IF ~r.ok \/ IsNone(r.e) THEN r ELSE Ok([r.e EXCEPT !.minus = ~@], r.i)
      ELSE IF K(toks, i) = "string" THEN Ok(EValue(Str(S(toks, i)), minus), i + 1)
      ELSE IF K(toks, i) = "raw"
      THEN IF FieldOf(S(toks, i)) # N THEN Ok(EField(FieldOf(S(toks, i)), minus), i + 1)
@@ -164,15 +170,15 @@ PFunction(toks, i, fn) ==
   THEN IF fn \in BooleanFunctions \cup NoArgFunctions THEN Ok(EFunction(fn), i) ELSE Err(i)
   ELSE LET curly == K(toks, i) = "curlyopen"
            a == PExpr(toks, i + 1)
-       IN IF ~a.ok \/ a.e = N THEN Ok(EFunction(fn), IF a.ok THEN a.i ELSE i + 1)
+       IN IF ~a.ok \/ IsNone(a.e) THEN Ok(EFunction(fn), IF a.ok THEN a.i ELSE i + 1)
           ELSE PArgs(toks, a.i, [EFunction(fn) EXCEPT !.left = a.e], <<>>, curly)
 PArgs(toks, i, fe, args, curly) ==
   IF K(toks, i) = "comma"
-  THEN LET a == PExpr(toks, i + 1) IN IF ~a.ok \/ a.e = N THEN Err(a.i) ELSE PArgs(toks, a.i, fe, Append(args, a.e), curly)
-  ELSE IF (K(toks, i) = "close" /\ ~curly) \/ (K(toks, i) = "curlyclose" /\ curly) THEN Ok([fe EXCEPT !.args = args], i + 1)
+  THEN LET a == PExpr(toks, i + 1) IN IF ~a.ok \/ IsNone(a.e) THEN Err(a.i) ELSE PArgs(toks, a.i, fe, Append(args, a.e), curly)
+  ELSE IF (K(toks, i) = "close" /\ ~curly) \/ (K(toks, i) = "curlyclose" /\ curly) THEN Ok([fe EXCEPT !.args = Args(args)], i + 1)
   ELSE Err(i + 1)
 
 (* parse_where on a whole query: the expression after the WHERE token, "None" without WHERE *)
 WhereIndex(toks) == IF \E i \in 1 .. Len(toks) : toks[i].k = "where" THEN CHOOSE i \in 1 .. Len(toks) : toks[i].k = "where" /\ \A j \in 1 .. i - 1 : toks[j].k # "where" ELSE 0
-ParseWhere(toks) == IF WhereIndex(toks) = 0 THEN Ok(N, 1) ELSE PExpr(toks, WhereIndex(toks) + 1)
+ParseWhere(toks) == IF WhereIndex(toks) = 0 THEN Ok(NE, 1) ELSE PExpr(toks, WhereIndex(toks) + 1)
 =============================================================================
